@@ -245,7 +245,7 @@ fn check_from_iter(ctx: &mut Ctx, seq: &[usize]) {
 fn explore(ctx: &mut Ctx) {
     let thorough = ctx.tier.is_thorough();
     // Every non-decreasing list over every small universe, incl. overfull ones.
-    let (u_max, k_max) = if thorough { (9, 10) } else { (7, 8) };
+    let (u_max, k_max) = if thorough { (9, 10) } else { (8, 9) };
     for universe in 0..=u_max {
         for k in 0..=k_max {
             if universe == 0 && k > 0 {
